@@ -45,6 +45,8 @@ def work(item, opts):
                 o.setdefault("p", {})["offset"] = rng.choice([0.0, -7.5, 3.0])
             if rng.random() < 0.3:
                 sp["minmax"] = "max" if sp["minmax"] == "min" else "min"
+            if item.get("prior_abort"):
+                sp["_raise_after"] = int(case["cfg"]["population_size"] * rng.choice([1.5, 3.5]))
             priors.append(sp)
         case["prior"] = priors
         if item.get("reconf"):
